@@ -386,45 +386,7 @@ Proof.
   destruct (0 <? r)%N; cbn [forallb]; rewrite ?N.eqb_refl; reflexivity.
 Qed.
 
-(* ------------------------------------------------------------------ soundness for every case kind *)
-
-(* the hypotheses of the per-kind soundness lemmas, as a proposition, and its decision *)
-Definition c18_valid_prop (c : c18_case) : Prop :=
-  match c with
-  | OverlapCase r _ _ _ _ _ => (0 < r)%N
-  | SchedCase l0 f0 ls _ _ _ =>
-      let s := run_code (i_init l0 f0) ls in t_pc (i_a s) = PDone /\ t_pc (i_b s) = PDone
-  | FollowCase _ _ r1 r2 _ _ => (0 < r1)%N /\ (r1 < r2)%N
-  | _ => True
-  end.
-
-Lemma c18_validb_sound c : c18_validb c = true <-> c18_valid_prop c.
-Proof.
-  destruct c; cbn [c18_validb c18_valid_prop]; try tauto.
-  - unfold thr_done. rewrite andb_true_iff.
-    destruct (t_pc (i_a (run_code (i_init leader0 frev0) ls))), (t_pc (i_b (run_code (i_init leader0 frev0) ls)));
-      split; intros [H1 H2]; try discriminate; auto.
-  - apply N.ltb_lt.
-  - rewrite andb_true_iff, !N.ltb_lt. tauto.
-Qed.
-
-(* every kind the driver emits: a valid case on which the model and the implementation agree satisfies the property *)
-Lemma c18_oracle_sound : forall c, c18_valid_prop c -> c18_check c = true -> c18_oracle c = None.
-Proof.
-  intros c Hv H. pose proof (proj2 (c18_validb_sound c) Hv) as Hvb. destruct c.
-  - apply (c18_role_sound _ _ _ _ _ H).
-  - apply (c18_sched_sound _ _ _ _ _ _ Hvb H).
-  - apply (c18_overlap_sound _ _ _ _ _ _ Hv H).
-  - destruct Hv as [H1 H2]. apply (c18_follow_sound _ _ _ _ _ _ H1 H2 H).
-  - apply (c18_forward_sound _ _ _ _ _ _ H).
-  - apply (c18_takeover_sound _ _ _ _ _ _ H).
-Qed.
-
-Lemma c18_checkv_sound : forall c, c18_checkv c = true -> c18_oracle c = None.
-Proof.
-  intros c H. unfold c18_checkv in H. apply andb_true_iff in H. destruct H as [Hv Hc].
-  apply c18_oracle_sound; [apply c18_validb_sound; exact Hv|exact Hc].
-Qed.
+(* soundness for every case kind: Proofs/RolesN.v (the n-read kind needs the n-read theorem) *)
 
 (* "rejects as unavailable or forwards", exactly: a write or a watch on a follower is rejected as unavailable when there
    is no etcd proxy (or the request is not an etcd one); with the proxy an etcd write or watch is forwarded *)
